@@ -89,12 +89,12 @@ fn generate_g(seed: u64, _quick: bool) -> Value {
             _ => 3000,
         };
         let reg_text = format!(
-            "(define-library (iso reg) (import (scheme base)) (export iso-reg-value iso-reg-next!) (begin (define n {m}) (define (iso-reg-value) {m}) (define (iso-reg-next!) (set! n (+ n 1)) n)))",
+            "(define-library (iso reg) (import (scheme base)) (export iso-reg-value iso-reg-next! iso-reg-bumped) (begin (define n {m}) (define (iso-reg-value) {m}) (define (iso-reg-next!) (set! n (+ n 1)) n) (define-syntax iso-bump (syntax-rules () ((iso-bump x) (+ x {m})))) (define (iso-reg-bumped x) (iso-bump x))))",
             m = marker
         );
         let file_text = format!(
-            "(define-library (iso file) (import (scheme base)) (export iso-file-value) (begin (define (iso-file-value) (+ {} 7))))",
-            marker
+            "(define-library (iso file) (import (scheme base)) (export iso-file-value iso-file-bumped) (begin (define (iso-file-value) (+ {m} 7)) (define-syntax iso-bump (syntax-rules () ((iso-bump x) (- x {m})))) (define (iso-file-bumped x) (iso-bump x))))",
+            m = marker
         );
         if with_libs {
             if rng.chance(2, 3) {
@@ -119,11 +119,25 @@ fn generate_g(seed: u64, _quick: bool) -> Value {
             }
         }
         if with_libs {
-            for _ in 0..rng.range(1, 3) {
+            for _ in 0..rng.range(1, 4) {
                 let at = rng.upto(forms.len() + 1);
-                let t = *rng.pick(&["(iso-reg-value)", "(iso-reg-next!)", "(iso-file-value)"]);
+                let t = *rng.pick(&[
+                    "(iso-reg-value)",
+                    "(iso-reg-next!)",
+                    "(iso-file-value)",
+                    "(iso-reg-bumped 1)",
+                    "(iso-file-bumped 1)",
+                    "(define (iso-bump x) (+ x 100))",
+                    "(iso-bump 1)",
+                ]);
                 forms.insert(at, json!({"t": t, "k": "lib-use"}));
             }
+        }
+        if rng.chance(1, 3) {
+            // a small program file run through eval_file on this instance; often a failing one
+            let at = rng.upto(forms.len() + 1);
+            let text = if rng.chance(2, 3) { "(car 5)\n" } else { "(define from-file 1)\nfrom-file\n" };
+            forms.insert(at, json!({"t": text, "k": "eval-file"}));
         }
         let mut all = prefix;
         all.extend(forms);
@@ -184,6 +198,26 @@ fn generate_g(seed: u64, _quick: bool) -> Value {
 
 struct Inst {
     sys: RealSys,
+    dir: PathBuf,
+}
+
+/// evaluate one scheduled form through its instance: text through `eval`, or a small
+/// program file through `eval_file`
+fn eval_form(inst: &mut Inst, form: &Value, index: usize) -> String {
+    let t = form["t"].as_str().unwrap_or("");
+    if form["k"].as_str() == Some("eval-file") {
+        let path = inst.dir.join(format!("prog-{}.scm", index));
+        let _ = std::fs::create_dir_all(&inst.dir);
+        let _ = std::fs::write(&path, t);
+        let it = &mut inst.sys.it;
+        match guarded(|| it.eval_file(path)) {
+            Ok(Ok(v)) => outcome_text(&Outcome::Value(v.as_ref().map(obs_of_value))),
+            Ok(Err(e)) => outcome_text(&Outcome::Error(kind_of_error(&e))),
+            Err(p) => outcome_text(&Outcome::Panic(p)),
+        }
+    } else {
+        outcome_text(&inst.sys.eval_text(t))
+    }
 }
 
 fn make_instance(prog: &Value, dir: &PathBuf) -> Result<Inst, crate::hashseed::PanicRecord> {
@@ -206,7 +240,7 @@ fn make_instance(prog: &Value, dir: &PathBuf) -> Result<Inst, crate::hashseed::P
         Err(_) => false,
     })?;
     let _ = r;
-    Ok(Inst { sys })
+    Ok(Inst { sys, dir: dir.clone() })
 }
 
 fn outcome_text(o: &Outcome) -> String {
@@ -223,8 +257,7 @@ fn solo(prog: &Value, dir: &PathBuf, indices: &[usize]) -> Vec<String> {
     let forms = prog["forms"].as_array().cloned().unwrap_or_default();
     ruschm::verif_hooks::set_budget(3_000_000, 20_000);
     for i in indices {
-        let t = forms[*i]["t"].as_str().unwrap_or("");
-        out.push(outcome_text(&inst.sys.eval_text(t)));
+        out.push(eval_form(&mut inst, &forms[*i], *i));
     }
     out
 }
@@ -385,7 +418,7 @@ fn execute_g(case: &Value) -> RunResult {
                     let t = form["t"].as_str().unwrap_or("").to_string();
                     let k = form["k"].as_str().unwrap_or("").to_string();
                     let inst = insts.get_mut(&w).unwrap();
-                    let got = outcome_text(&inst.sys.eval_text(&t));
+                    let got = eval_form(inst, form, f);
                     evaluated_before += 1;
                     let p = pos.entry(w.clone()).or_insert(0);
                     let expected = solo2[&w].get(*p).cloned().unwrap_or_default();
